@@ -242,6 +242,17 @@ def gen_trees(quick, seed):
         add([forst(assign("=", [ident("i")], [lit_int(0)]) if hi else NONE, binop("<", ident("i"), lit_int(3)) if hc else NONE,
                    assign("+=", [ident("i")], [lit_int(1)]) if hp else NONE, [call("f", [ident("i")]), {"k": "break"}])], "for shape")
     add([forin("v", ident("a"), [call("f", [ident("v")]), {"k": "continue"}])], "for-in")
+    # for-in over every kind of expression that can stand after `in`: names, literals, calls, indexes, attribute chains, parentheses and
+    # slices of each sliceable base in several slice forms
+    its = [ident("a"), lst([lit_int(1), lit_int(2)]), lst([]), lit_str(b"ab"), call("f", []), call("f", [ident("a"), lit_int(1)]), idx("a", [lit_int(0)]),
+           idx("a", [lit_int(0), lit_str(b"k")]), {"k": "attr", "parts": ["a", "b"]}, paren(ident("a")), mp([lit_str(b"k")], [lit_int(1)])]
+    for base in [ident("a"), lit_str(b"abc"), lst([lit_int(1), lit_int(2)]), call("f", [])]:
+        for (hs, he, hst, c2) in [(1, 0, 0, 0), (0, 1, 0, 0), (1, 1, 0, 0), (0, 0, 0, 0), (1, 1, 1, 1), (0, 0, 1, 1), (1, 0, 0, 1), (0, 1, 1, 1)]:
+            its.append(slc(base, lit_int(1) if hs else NONE, lit_int(3) if he else NONE, lit_int(2) if hst else NONE, bool(c2)))
+    its.append(paren(slc(ident("a"), lit_int(1), NONE, NONE, False)))
+    its.append(slc(slc(ident("a"), lit_int(1), NONE, NONE, False), NONE, lit_int(2), NONE, False))
+    for it in its:
+        add([forin("v", it, [call("f", [ident("v")])])], "for-in over every kind of iterable expression")
     add([ifs([a], [[call("f", [])]]), ifs([a, b], [[], [call("g", [])]], []), ifs([a], [[]], [call("h", [])])], "if forms")
     add([call("f", [assign("=", [ident("p")], [lit_int(1)]), ]), call("f", [a, assign("=", [ident("q")], [binop("+", a, b)])])], "named arguments")
     add([{"k": "attr", "parts": ["a", "b", "c"]}, call("f", [{"k": "attr", "parts": ["a", "b"]}])], "attribute chains")
